@@ -112,7 +112,7 @@ class Runtime:
     def __init__(
         self, handlers: Optional[Mapping[Type[Request], Handler]] = None
     ) -> None:
-        self.handlers = {**_DEFAULT_HANDLERS, **(handlers or {})}
+        self.handlers = {**(handlers or {})}
         self.previous = None
 
     def handle(
@@ -174,10 +174,13 @@ class Runtime:
 
         try:
             handler = self.handlers[type(request)]
-        except KeyError as e:
-            raise TypeError(
-                f"No handler for request type {type(request).__qualname__}"
-            ) from e
+        except KeyError:
+            try:
+                handler = _DEFAULT_HANDLERS[type(request)]
+            except KeyError as e:
+                raise TypeError(
+                    f"No handler for request type {type(request).__qualname__}"
+                ) from e
 
         return handler(request)
 
